@@ -106,12 +106,16 @@ def nested_list(draw):
     return draw(st.permutations(out))
 
 
+MAPPED_ENTRIES = ["::ffff:0:0/96", "::ffff:127.0.0.9", "::ffff:10.0.0.0/104", "::/0", "::ffff:192.0.2.0/120"]
+
+
 def lists_st():
-    return st.one_of(st.none(), st.none(), st.just([]), st.lists(entry_st(), min_size=1, max_size=3), nested_list(), nested_list())
+    return st.one_of(st.lists(st.sampled_from(MAPPED_ENTRIES), min_size=1, max_size=2, unique=True),st.none(), st.none(), st.just([]), st.lists(entry_st(), min_size=1, max_size=3), nested_list(), nested_list())
 
 
 MALFORMED_PEERS = ["unknown", "", "not-an-ip", "300.1.1.1", "1.2.3", "1.2.3.4.5", "::g", "1.2.3.4 ", " 1.2.3.4", "0x7f.1", "127.1",
-                   "fe80::1%eth0", "fe80::1%1", "::ffff:10.0.0.1", "::ffff:127.0.0.1", "010.0.0.1", "1.2.3.4/32", "[::1]", "localhost"]
+                   "fe80::1%eth0", "fe80::1%1", "::ffff:10.0.0.1", "::ffff:127.0.0.1", "::ffff:127.0.0.9", "::ffff:10.1.2.3", "::ffff:192.0.2.77",
+                   "::ffff:c000:24d", "010.0.0.1", "1.2.3.4/32", "[::1]", "localhost"]
 
 
 @st.composite
@@ -147,7 +151,15 @@ def case_st(draw):
 def ref_decision(case, peer: str):
     """'admit' | 'refuse' | 'grey'"""
     if peer.lower().startswith("::ffff:"):
-        return "grey"
+        # IPv4-mapped IPv6 peer: an IPv6 address like any other for IPv6 entries; whether IPv4 entries apply to the
+        # embedded IPv4 address is not stated -> grey as soon as an IPv4 entry could make a difference
+        emb = to_int(peer[7:]) if "." in peer else None
+        t6 = to_int(peer)
+        if t6 is None or t6[0] != socket.AF_INET6:
+            return "grey"
+        v4 = [parse_entry(e) for e in (case["allow"] or []) + (case["deny"] or [])]
+        if any(e is not None and e[0] == socket.AF_INET and (emb is None or contains(e, emb)) for e in v4):
+            return "grey"
     if "%" in peer:
         # scoped IPv6: the zone names an interface, the address is what the lists are about
         addr, _, zone = peer.partition("%")
